@@ -53,6 +53,23 @@ def maporder_across_processes(c):
 
 
 CONFIG = {
+    "C17": {
+        "profiles": BOTH,
+        "rule": "one evaluation = one compile (coverage check), one perturbed execution or one filter check; distinct non-trivial = distinct sources with at least one "
+                "free variable and at least three nodes",
+        "floors": {"quick": {"_evaluations": 150000, "programs/generated": 80000, "filter_checks": 10000, "unreported_names_perturbed": 1000},
+                   "thorough": {"_evaluations": 1500000}},
+        "assumptions": ASSUME_COMMON + [
+            "ground truth for 'variables read' is the generator's own free-variable computation over the tree it rendered (macro loop variables are bound inside bodies, "
+            "the reduce seed is outside the loop scope)",
+            "loop variables, function and type names may or may not be reported (they occur in the source)"],
+        "technique": "runtime monitoring with an independent free-identifier computation (generator ground truth) and an evaluation-relevance monitor "
+                     "(perturbing every unreported name must not change the outcome); set-equality monitor for filter_from_bindings",
+        "level_text": "42 hand-written programs covering every syntactic position of the statement plus generated programs with 1..6 variables (names colliding with built-ins, "
+                      "loop variables shadowing outer variables): variables_read <= reported <= identifiers_in_source; every unreported identifier is bound to three values and left unbound "
+                      "and must not influence the outcome; filter_from_bindings against BindContext::new() plus bound params, a user function and a user macro. Exploration only.",
+        "level_note": "trusts gen::free_vars (60 lines) and the renderer",
+    },
     "C09": {
         "profiles": BOTH,
         "rule": "one evaluation = one execution of an expression in one variable/literal form; distinct non-trivial = distinct (expression, binding) pairs with a non-empty "
